@@ -48,6 +48,9 @@ MUTANTS += [
     ('revert-c01-array-n', ['C01'], P, r"array_re = r'(?P<array>array(?:\[\d+\])?)'", r"array_re = r'(?P<array>array)'"),
     ('revert-c01-earliest-match', ['C01'], P, "    if in_match and (not match or in_match.start('type') < match.start('type')):", "    if in_match and not match:"),
     ('revert-c01-queue-tie', ['C01'], P, "    if in_match and (not match or in_match.start('type') < match.start('type')):", "    if in_match and (not match or in_match.start() < match.start()):"),
+    ('revert-c01-delete-id-unseen', ['C01', 'C02', 'C04'], 'core/wl/message.py',
+     "            try:\n                self.destroyed_obj = conn.retrieve_object(first_arg.value, -1, None)\n                self.destroyed_obj.destroy(self.timestamp)\n            except RuntimeError as e:\n                # The object was created before we started looking, the message itself is still a message\n                logging.warning('Unable to resolve destroyed object: ' + str(e))\n",
+     "            self.destroyed_obj = conn.retrieve_object(first_arg.value, -1, None)\n            self.destroyed_obj.destroy(self.timestamp)\n"),
     ('revert-c01-greedy-queue', ['C01'], P, "queue_re = r'( {.*?})?'", "queue_re = r'( {.*})?'"),
     ('revert-c05-arg-brackets', ['C05'], MA, "    if text.startswith('[') and text.endswith(']') and _find_closing_brace(text, 0) == len(text) - 1:", "    if text.startswith('[') and text.endswith(']'):"),
     ('revert-c09-array-index', ['C09'], EX, "for elem_index in range(size // int_type.sizeof): # must not reuse i, it is the argument index\n                    elem = value['data'].cast(int_type.pointer())[elem_index]",
